@@ -164,7 +164,7 @@ def natural_key(name):
         isd = d
     if cur:
         parts.append((1, int(cur), "") if isd else (0, 0, cur))
-    return parts
+    return (parts, name)   # the raw name breaks ties between names that differ only in leading zeros (k7, k07)
 
 
 # ------------------------------------------------------------------------------------------
